@@ -94,10 +94,8 @@ class Ctx:
     def begin_path(self, prefix):
         self.prefix = prefix
         self.trace = []
-        self.solver = z3.Solver()
-        self.solver.set('timeout', self.solver_timeout_ms)
-        if self.seed:
-            self.solver.set('random_seed', self.seed & 0x7fffffff)
+        self.logic = 'QF_BV'
+        self.solver = self._new_solver()
         self._m = None
         self.inputs = []
         self.obligations = []
@@ -108,6 +106,26 @@ class Ctx:
         self.env = {}
 
     # -- solver ------------------------------------------------------------
+    def _new_solver(self):
+        # The QF_BV solver (bit-blasting + incremental SAT) is ~30x faster
+        # than the general SMT core on the version-ladder queries; paths that
+        # create floating-point terms switch to the general solver (need_fp).
+        s = z3.SolverFor('QF_BV') if self.logic == 'QF_BV' else z3.Solver()
+        s.set('timeout', self.solver_timeout_ms)
+        if self.seed:
+            s.set('random_seed', self.seed & 0x7fffffff)
+        return s
+
+    def need_fp(self):
+        """called by the FP model before it creates a floating-point term"""
+        if self.mode == 'conc' or self.logic != 'QF_BV':
+            return
+        self.logic = 'ALL'
+        old = self.solver
+        self.solver = self._new_solver()
+        self.solver.add(*old.assertions())
+        self._m = None
+
     def check(self, *extra):
         t = time.time()
         r = self.solver.check(*extra)
